@@ -42,7 +42,7 @@ type World struct {
 	pending map[common.Address]uint64
 	history [][]byte // raw Ethereum txs of earlier blocks (replay class)
 	// OnBlock sees every block the world produces (deployment blocks included).
-	OnBlock func(br *vh.BlockResult, planned []string)
+	OnBlock func(w *World, br *vh.BlockResult, planned []string)
 }
 
 // Planned classes (what the generator intends; the checker classifies from results only).
@@ -86,7 +86,7 @@ func initWithLogs(n, variant int, runtime []byte) []byte {
 
 // NewWorld builds the chain, funds the EOAs and deploys the logging contracts (one create per block,
 // so that even the smallest block gas limit admits them).
-func NewWorld(r *vh.RNG, cfg WorldCfg, onBlock func(br *vh.BlockResult, planned []string)) *World {
+func NewWorld(r *vh.RNG, cfg WorldCfg, onBlock func(w *World, br *vh.BlockResult, planned []string)) *World {
 	if cfg.NumEOA == 0 {
 		cfg.NumEOA = 10
 	}
@@ -337,10 +337,13 @@ func (w *World) Run(txs [][]byte, planned []string) *vh.BlockResult {
 		}
 	}
 	if w.OnBlock != nil {
-		w.OnBlock(br, planned)
+		w.OnBlock(w, br, planned)
 	}
 	return br
 }
+
+// Decoder is the application's tx decoder.
+func (w *World) Decoder() TxDecoder { return w.C.Enc.TxConfig.TxDecoder() }
 
 // Step composes and runs one block of n transactions.
 func (w *World) Step(n int) *vh.BlockResult {
